@@ -92,11 +92,13 @@ type Result struct {
 	Switches   int
 	SimTime    time.Duration
 	StepCapped bool
-	Panics     int
-	Sample     any // a written-out case for the evidence file
-	Events     []rt.Event
-	Inconcl    int // e.g. porcupine Unknown
-	Extra      map[string]int
+	// NativeStuck: tasks that were still blocked on something the scheduler does not own when the run ended
+	NativeStuck int
+	Panics      int
+	Sample      any // a written-out case for the evidence file
+	Events      []rt.Event
+	Inconcl     int // e.g. porcupine Unknown
+	Extra       map[string]int
 }
 
 func (r *Result) Violate(class, key, format string, a ...any) {
@@ -147,7 +149,7 @@ type Simplifier interface {
 
 var lenses = map[string]Lens{}
 
-func Register(l Lens) { lenses[l.ID()] = l }
+func Register(l Lens)    { lenses[l.ID()] = l }
 func Get(id string) Lens { return lenses[id] }
 func IDs() []string {
 	var r []string
@@ -216,6 +218,12 @@ func RunPlan(t *testing.T, l Lens, p *Plan, keepLog bool) *Result {
 		func() {
 			defer func() {
 				if r := recover(); r != nil {
+					if res != nil && res.NativeStuck > 0 && strings.Contains(fmt.Sprint(r), "deadlock") {
+						// expected: the run ended with tasks of the code under test blocked for good on something
+						// the scheduler does not own (the lens has judged that); their goroutines cannot be ended,
+						// which is what the bubble complains about
+						return
+					}
 					// a panic that escaped the bubble (deadlock at bubble end or harness bug)
 					res = &Result{}
 					res.Violate("HARNESS/bubble-panic", "", "%v", r)
@@ -249,11 +257,18 @@ func FinishSim(res *Result, s *rt.Sim) {
 	res.Switches = s.Switches
 	res.SimTime = s.Now()
 	res.StepCapped = s.StepCapped
+	res.NativeStuck = s.NativeStuck
 	if res.Probes == nil {
 		res.Probes = map[string]int{}
 	}
 	for k, v := range s.Probes {
 		res.Probes[k] += v
+	}
+	if s.NativeSeen > 0 {
+		res.Probes["task_blocked_outside_the_scheduler"] += s.NativeSeen
+	}
+	if s.NativeStuck > 0 {
+		res.Probes["task_still_blocked_outside_the_scheduler_at_the_end"] += s.NativeStuck
 	}
 	res.Faults = map[string]int{}
 	for k, v := range s.FaultsFired {
